@@ -779,4 +779,27 @@ theorem lookupNF_setField (f : Facts F) (field : Str) (v : Val F) :
           simp [set, get, lookupKV_insertKV_ne _ _ _ _ hne, hr,
             descend_none_of_setIn_none v (q :: ps) root (by simp) hsi, lookupKV_insertKV_self]
 
+/-! ### the caller's `remove` -/
+
+theorem lookupKV_removeKV_self {α} (kvs : List (Str × α)) (k : Str) :
+    lookupKV (removeKV kvs k) k = none := by
+  induction kvs with
+  | nil => rfl
+  | cons kv rest ih =>
+    obtain ⟨k', w⟩ := kv
+    by_cases h : k' = k
+    · simp [removeKV, h, ih]
+    · simp [removeKV, lookupKV, h, ih]
+
+theorem lookupKV_removeKV_ne {α} (kvs : List (Str × α)) (k k' : Str) (hne : k' ≠ k) :
+    lookupKV (removeKV kvs k) k' = lookupKV kvs k' := by
+  induction kvs with
+  | nil => rfl
+  | cons kv rest ih =>
+    obtain ⟨k'', w⟩ := kv
+    by_cases h : k'' = k
+    · simp [removeKV, lookupKV, h, ih]
+      intro e; exact absurd (h ▸ e : k = k') (fun e' => hne e'.symm)
+    · simp [removeKV, lookupKV, h, ih]
+
 end C01
